@@ -44,6 +44,25 @@ def passes_start_transaction(call, target_params):
     return False
 
 
+def abort_rules(ctx, P='C17-ABORT'):
+    # a failure of flush() or of the provider commit inside SessionCache.flush_and_commit / SessionCache.commit never propagates without
+    # cache.rollback(): whatever the exception class (the handler must lie on *every* exception edge of the call, so a handler narrowed to one
+    # exception family does not qualify).  Shared: C14 (a key conflict found at flush time leaves the database unchanged) evaluates it too.
+    repo, cg = ctx.repo, ctx.cg
+    for qual, what in (('SessionCache.flush_and_commit', 'flush'), ('SessionCache.commit', 'flush'), ('SessionCache.commit', 'commit')):
+        f = repo.fn(CORE, qual); g = cg.cfg(f); recv = f.recv
+        src = nodes_calling(g, lambda c: isinstance(c.func, ast.Attribute) and c.func.attr == what and (
+            dotted(c.func.value) == recv or what == 'commit' and norm(c.func.value).endswith('provider')))
+        rb = nodes_calling(g, lambda c: is_call_to(c, recv, 'rollback'))
+        ok = bool(src) and bool(rb)
+        for s in src:
+            es = [y for y, lab in g.succ[s.id] if lab == 'exc']
+            if g.raise_.id in g.reach(es, avoid=rb): ok = False
+        ctx.ob(P + '.rollback-when-%s-fails' % what, f, src[0].ast if src else f.node, ok,
+               '' if ok else 'a failure of %s() in %s propagates without cache.rollback(): the connection goes back to the pool with the '
+               'partial transaction still open' % (what, qual))
+
+
 def global_commit_rules(ctx, P='C17-ABORT'):
     repo, cg = ctx.repo, ctx.cg
     cm = repo.fn(CORE, 'commit'); g = cg.cfg(cm)
@@ -217,18 +236,7 @@ def run(ctx):
     ctx.floor('C17-BEGIN', len(flags), 1, 'in_transaction = True in SQLite set_transaction_mode')
 
     # ---------------------------------------------------------------- ABORT
-    for qual, what in (('SessionCache.flush_and_commit', 'flush'), ('SessionCache.commit', 'flush'), ('SessionCache.commit', 'commit')):
-        f = repo.fn(CORE, qual); g = cg.cfg(f); recv = f.recv
-        src = nodes_calling(g, lambda c: isinstance(c.func, ast.Attribute) and c.func.attr == what and (
-            dotted(c.func.value) == recv or what == 'commit' and norm(c.func.value).endswith('provider')))
-        rb = nodes_calling(g, lambda c: is_call_to(c, recv, 'rollback'))
-        ok = bool(src) and bool(rb)
-        for s in src:
-            es = [y for y, lab in g.succ[s.id] if lab == 'exc']
-            if g.raise_.id in g.reach(es, avoid=rb): ok = False
-        ctx.ob('C17-ABORT.rollback-when-%s-fails' % what, f, src[0].ast if src else f.node, ok,
-               '' if ok else 'a failure of %s() in %s propagates without cache.rollback(): the connection goes back to the pool with the '
-               'partial transaction still open' % (what, qual))
+    abort_rules(ctx)
     global_commit_rules(ctx)
     rbk = repo.fn(CORE, 'rollback_and_reraise'); g = cg.cfg(rbk)
     rb = nodes_calling(g, lambda c: isinstance(c.func, ast.Name) and c.func.id == 'rollback')
